@@ -270,8 +270,8 @@ CONTRACTS = {
     'to_header_map': [('M1_written_from_empty', 'r matches Ok(h) && written(*self, %s, h@)' % EMPTY, ['C04', 'C03', 'C02'])],
     'from_header_map': [('R1_total_and_exact', 'read(header_map@, r)', ['C04', 'C02'])],
     'add_header': [
-        ('A1_never_fails_values_always_legal', 'r is Ok', ['C04', 'C03']),
-        ('A2_written', 'written(*self, old(header_map)@, final(header_map)@)', ['C04', 'C03', 'C08', 'C02']),
+        ('A1_never_fails_values_always_legal', 'r is Ok', ['C04', 'C03', 'C12']),
+        ('A2_written', 'written(*self, old(header_map)@, final(header_map)@)', ['C04', 'C03', 'C08', 'C02', 'C12']),
     ],
     'infer_grpc_status': [
         ('I1_status_from_trailers_wins',
